@@ -710,3 +710,49 @@ def make_child(u, paths, encoded):
     if u.netloc != "" and have and not (text == "" or text[:1] == "/"):
         text = "/" + text
     return U(u.scheme, u.netloc, text, "", "")
+
+
+# ---------------------------------------------------------------- decoded accessors (C06): which decoder on which raw component
+
+from yarl._quoters import PATH_SAFE_UNQUOTER, PATH_UNQUOTER, QS_UNQUOTER, UNQUOTER  # noqa: E402
+
+
+def user(u):
+    r = raw_user(u)
+    return None if r is None else UNQUOTER(r)
+
+
+def password(u):
+    r = raw_password(u)
+    return None if r is None else UNQUOTER(r)
+
+
+def path(u):
+    """'+' is not a space in a path; '/' for an empty path under an authority"""
+    if u.path != "":
+        return PATH_UNQUOTER(u.path)
+    return "/" if u.netloc != "" else ""
+
+
+def path_safe(u):
+    """like path, with %2F and %25 kept"""
+    if u.path != "":
+        return PATH_SAFE_UNQUOTER(u.path)
+    return "/" if u.netloc != "" else ""
+
+
+def query_string(u):
+    """'+' means space; the pair delimiters stay escaped"""
+    return QS_UNQUOTER(u.query) if u.query != "" else ""
+
+
+def fragment(u):
+    return UNQUOTER(u.fragment) if u.fragment != "" else ""
+
+
+def name(u):
+    return UNQUOTER(raw_name(u))
+
+
+def suffix(u):
+    return UNQUOTER(raw_suffix(u))
